@@ -69,7 +69,20 @@ def run(tier, seed):
         ws = core.Workspace(PROP, "b%d" % b, expand_only=True, vattr=True, nshards=rng.choice([5, 8, 16, 11]))
         ws.extend(inst)
         ws.write()
-        ws.build(env_extra=envs[b % len(envs)])
+        env_b = dict(envs[b % len(envs)])
+        alt = None
+        if tier != "quick" and b == builds - 1:
+            # one build in a separate target directory (everything, including entrait_macros itself, is rebuilt there)
+            import shutil
+            alt = core.WORK / "c20" / "alt_target"
+            if alt.exists():
+                shutil.rmtree(alt)
+            env_b["CARGO_TARGET_DIR"] = str(alt)
+            env_b["CARGO_BUILD_JOBS"] = "16"
+        ws.build(env_extra=env_b, timeout=3600)
+        if alt is not None:
+            import shutil
+            shutil.rmtree(alt, ignore_errors=True)
         for r in ws.all_records:
             total_records += 1
             if r["status"] != "end":
